@@ -33,6 +33,7 @@ partial def loop (h : IO.FS.Stream) (n bad : Nat) : IO Nat := do
   let line ← h.getLine
   if line.isEmpty then return bad
   let l := line.trimAscii.toString
+  if l.startsWith "#" then loop h (n + 1) bad else
   let parts := l.splitOn " | "
   match parts[0]!.splitOn " " with
   | [kind, pp, argv] =>
